@@ -2,6 +2,7 @@
 //! `ops.txt` (one op per line), `impl.txt` (one reply per line) and `meta.json` into `--out`.
 //! The same `ops.txt` is then fed to the Lean driver `suxdrv <runner>` and the replies diffed.
 mod common;
+mod run_bfv;
 mod run_bitvec;
 
 use common::*;
@@ -60,6 +61,8 @@ fn main() {
     match (runner.as_str(), &replay) {
         ("bitvec", None) => run_bitvec::run(&mut ctx),
         ("bitvec", Some(l)) => run_bitvec::replay(&mut ctx, l),
+        ("bfv", None) => run_bfv::run(&mut ctx),
+        ("bfv", Some(l)) => run_bfv::replay(&mut ctx, l),
         (r, _) => {
             eprintln!("unknown runner {}", r);
             std::process::exit(2);
